@@ -27,3 +27,7 @@ CLAIMS["C08"] = (
  "runtime monitor with reference model: every Patch event of set / multiset / keyed-member diffs on permuted and hostile targets compared with an independent set / bag / keyed-member interpreter",
  "Held on every executed (diff, target) event under SET, MULTISET and three SetKeys configurations, incl. non-array targets, absent members, insufficient multiplicity, changed non-key fields; the swallowed nested error inside keyed members is the open known finding F4 (classifier + deviation model).",
  TB, "DESIGN.md 5.8")
+CLAIMS["C02"] = (
+ "runtime monitor: render / re-read / re-render identity, field-by-field hunk identity and identical patch effect on a document panel, over diffs produced by Diff and exhaustively constructed hunk sequences; reader automaton transitions observed through the verif hook VerifReadTrace",
+ "Held on every executed diff: ~54k diffs from Diff under 9 option sets with hostile string payloads, all 418 well-formed single hunk shapes, a third (quick) / all (thorough) ordered pairs of them, all pairs and 1/16 (quick) / all (thorough) triples of a reduced shape set, plus real-binary print-then-patch round trips; all 25 reader transitions reachable from well-formed text were driven.",
+ TB, "DESIGN.md 5.2")
